@@ -117,7 +117,109 @@ func chainEdgeClass(c *Cond) string {
 			return "match"
 		}
 	}
+	// the walk is driven by a visitor callback (forEachSlot(start, visit)): it stops when the visitor says so, and every
+	// visitor passed by a caller says so only behind a match or an error
+	if c.Op == token.ILLEGAL && c.V != nil && isBoolType(c.V.Type()) {
+		if call, idx := callResult(c.V); call != nil && idx >= 0 && !isMatchKeyCall(call) && call.Call.StaticCallee() == nil && !call.Call.IsInvoke() {
+			if pa, ok := strip(call.Call.Value).(*ssa.Parameter); ok && visitorsStopOnlyJustified(pa, c.Pos) {
+				return "match"
+			}
+		}
+	}
 	return ""
+}
+
+var curProgram *Program
+
+// visitorsStopOnlyJustified: every function value passed for parameter pa by a static caller of pa's function returns
+// the boolean `val` (first result) only behind a key/record match or an error.
+func visitorsStopOnlyJustified(pa *ssa.Parameter, val bool) bool {
+	p := curProgram
+	if p == nil {
+		return false
+	}
+	f := pa.Parent()
+	i := paramIndex(pa)
+	n := 0
+	okAll := true
+	for _, c := range staticCallersOf(p, f) {
+		instrsOf(c, func(in ssa.Instruction) {
+			ci, ok := in.(ssa.CallInstruction)
+			if !ok || ci.Common().StaticCallee() != f || i < 0 || i >= len(ci.Common().Args) {
+				return
+			}
+			n++
+			h, _, _ := resolveFuncValue(&Ctx{Fn: c}, ci.Common().Args[i], 0)
+			if h == nil || h.Blocks == nil {
+				okAll = false
+				return
+			}
+			for _, ret := range returnsOf(h) {
+				if len(ret.Results) == 0 {
+					okAll = false
+					continue
+				}
+				// an error return is justified whatever it says
+				if ei := errResultIndex(h); ei >= 0 && provablyNonNil(h, retOperand(ret, ei), ret) {
+					continue
+				}
+				if !boolOnlyUnder(h, ret, retOperand(ret, 0), val, func(cd *Cond) bool {
+					switch chainEdgeClass(cd) {
+					case "match", "error":
+						return true
+					}
+					return false
+				}) {
+					okAll = false
+				}
+			}
+		})
+	}
+	return n > 0 && okAll
+}
+
+// boolOnlyUnder: at return ret of h, the boolean v equals want only where pred holds (see returnsOnlyUnder).
+func boolOnlyUnder(h *ssa.Function, ret *ssa.Return, v ssa.Value, want bool, pred func(c *Cond) bool) bool {
+	v = strip(v)
+	if bv, isc := constBool(v); isc {
+		return bv != want || controlledBy(h, ret, pred)
+	}
+	if ph, ok := v.(*ssa.Phi); ok {
+		for i, e := range ph.Edges {
+			pb := ph.Block().Preds[i]
+			es := strip(e)
+			if bv, isc := constBool(es); isc {
+				if bv != want {
+					continue
+				}
+				good := false
+				for k, sct := range pb.Succs {
+					if sct == ph.Block() {
+						if c := edgeCond(pb, k); c != nil && pred(c) {
+							good = true
+						}
+					}
+				}
+				if !good && len(pb.Instrs) > 0 && controlledBy(h, pb.Instrs[0], pred) {
+					good = true
+				}
+				if !good {
+					return false
+				}
+				continue
+			}
+			if !pred(condOfValue(es, want)) {
+				if in, ok := es.(ssa.Instruction); !ok || !controlledBy(h, in, pred) {
+					return false
+				}
+			}
+		}
+		return true
+	}
+	if pred(condOfValue(v, want)) {
+		return true
+	}
+	return controlledBy(h, ret, pred)
 }
 
 // matchDerived: the boolean v can be true only when a key callback (matchKeyFunc) reported a match: it is the
@@ -218,7 +320,21 @@ func carriesCallbackErr(e ssa.Value, d int) bool {
 
 func ruleC01ChainExit(r *Run, p *Program, rule string) {
 	walkers := chainWalkers(p)
-	r.universe(rule, len(walkers), 4)
+	r.universe(rule, len(walkers), 2)
+	// every operation that has to walk a chain reaches a walker (the walk may live in a shared helper)
+	for _, k := range []string{"(*pogreb.index).get", "(*pogreb.index).delete", "(*pogreb.index).put", "(*pogreb.index).split", "(*pogreb.ItemIterator).fetchItems", "(*pogreb.DB).promoteRecord"} {
+		f := p.Fn(k)
+		if !r.anchor(rule, k, f != nil) {
+			continue
+		}
+		reaches := false
+		for _, h := range deepFuncs(p, f) {
+			if _, ok := walkers[h]; ok {
+				reaches = true
+			}
+		}
+		r.check(reaches, rule, k+":walks", p.Pos(f.Pos()), k+" reaches a bucket-chain walk", k+" no longer walks a bucket chain")
+	}
 	exits := 0
 	for f, calls := range walkers {
 		r.fn(funcKey(f))
@@ -443,6 +559,10 @@ func ruleC01Count(r *Run, p *Program, rule string) {
 	for _, st := range stores {
 		f := st.Parent()
 		k := funcKey(f)
+		// a visitor closure of index.delete / index.put counts as that function
+		if top := topFunc(f); top != f && (funcKey(top) == "(*pogreb.index).delete" || funcKey(top) == "(*pogreb.index).put") {
+			k = funcKey(top)
+		}
 		r.fn(k)
 		pos := p.Pos(st.Pos())
 		delta := 0
@@ -491,18 +611,24 @@ func ruleC01Count(r *Run, p *Program, rule string) {
 	}
 	// every successful removal decrements: in index.delete, a nil-error return after a match must pass the decrement
 	if f := p.Fn("(*pogreb.index).delete"); r.anchor(rule, "(*pogreb.index).delete", f != nil) {
+		// the removal may sit in a visitor closure of delete: work in the function that holds the bucket.del call
+		var delCalls []ssa.Instruction
+		host := f
+		for _, g := range append([]*ssa.Function{f}, f.AnonFuncs...) {
+			instrsOf(g, func(in ssa.Instruction) {
+				if c, ok := in.(*ssa.Call); ok && calleeKey(&c.Call) == "(*pogreb.bucket).del" {
+					delCalls = append(delCalls, c)
+					host = g
+				}
+			})
+		}
+		f = host
 		var dec []ssa.Instruction
 		for _, st := range stores {
 			if st.Parent() == f {
 				dec = append(dec, st)
 			}
 		}
-		var delCalls []ssa.Instruction
-		instrsOf(f, func(in ssa.Instruction) {
-			if c, ok := in.(*ssa.Call); ok && calleeKey(&c.Call) == "(*pogreb.bucket).del" {
-				delCalls = append(delCalls, c)
-			}
-		})
 		if r.anchor(rule, "call to (*bucket).del in index.delete", len(delCalls) > 0) {
 			w := &Walk{Fn: f, Stop: func(in ssa.Instruction) bool {
 				for _, d := range dec {
@@ -778,15 +904,38 @@ func ruleC01Addressing(r *Run, p *Program, rule string) {
 			n++
 			r.fn(funcKey(f))
 			arg := c.Call.Args[1]
-			// a walk extracted into a helper gets its start bucket as a parameter: judge what the callers pass
+			// a walk extracted into a helper gets its start bucket as a parameter: judge what every caller passes
 			if pa, ok := strip(arg).(*ssa.Parameter); ok && funcKey(f) != "(*pogreb.ItemIterator).fetchItems" {
-				if args := callSiteArgs(p, f, paramIndex(pa)); len(args) == 1 {
-					arg = args[0]
-					f = args[0].(interface{ Parent() *ssa.Function }).Parent()
+				if args := callSiteArgs(p, f, paramIndex(pa)); len(args) >= 1 {
+					for _, a := range args {
+						af := a.(interface{ Parent() *ssa.Function }).Parent()
+						for af.Parent() != nil && false {
+							af = af.Parent()
+						}
+						judgeStart(r, p, rule, af, a, funcKey(af)+"->"+funcKey(c.Parent())+"->newBucketIterator", p.Pos(c.Pos()))
+					}
+					return
 				}
 			}
-			construct := funcKey(c.Parent()) + "->newBucketIterator"
-			pos := p.Pos(c.Pos())
+			judgeStart(r, p, rule, f, arg, funcKey(c.Parent())+"->newBucketIterator", p.Pos(c.Pos()))
+		})
+	}
+	r.universe(rule, n, 3)
+	// the slot stored by Put carries the hash that addressed the chain and the location datalog.put returned
+	if f := p.Fn("(*pogreb.DB).Put"); r.anchor(rule, "(*pogreb.DB).Put", f != nil) {
+		checkSlotLiteral(r, p, rule, f, "(*pogreb.datalog).put")
+	}
+}
+
+// judgeStart decides whether `arg`, the bucket a chain walk in f starts at, is the bucket of the key's hash (or the
+// split bucket in split, or the scan position in the iterator).
+func judgeStart(r *Run, p *Program, rule string, f *ssa.Function, arg ssa.Value, construct, pos string) {
+	{
+		{
+			top := f
+			for top.Parent() != nil {
+				top = top.Parent()
+			}
 			var viaBucketIndex *ssa.Call
 			for _, s := range sources(arg) {
 				if bc, ok := s.(*ssa.Call); ok && calleeKey(&bc.Call) == "(*pogreb.index).bucketIndex" {
@@ -821,7 +970,7 @@ func ruleC01Addressing(r *Run, p *Program, rule string) {
 					}
 				}
 				r.check(okSrc, rule, construct, pos, "the walk starts at bucketIndex("+desc+")", "the chain walk starts at bucketIndex() of a value that is not the key hash ("+valString(h)+")")
-			case funcKey(f) == "(*pogreb.index).split":
+			case funcKey(top) == "(*pogreb.index).split":
 				okSrc := false
 				for _, s := range sources(arg) {
 					if isFieldLoad(s, "pogreb.index.splitBucketIdx") {
@@ -829,18 +978,13 @@ func ruleC01Addressing(r *Run, p *Program, rule string) {
 					}
 				}
 				r.check(okSrc, rule, construct, pos, "split walks the chain of the split bucket (old splitBucketIdx)", "split walks a chain other than the split bucket's")
-			case funcKey(f) == "(*pogreb.ItemIterator).fetchItems":
+			case funcKey(top) == "(*pogreb.ItemIterator).fetchItems":
 				_, isParam := strip(arg).(*ssa.Parameter)
 				r.check(isParam, rule, construct, pos, "the scan walks the chain of the bucket index it was given", "the scan does not walk the bucket index it was given")
 			default:
 				r.bad(rule, construct, pos, "a chain walk starts at a bucket that is not derived from bucketIndex(hash): "+valString(arg))
 			}
-		})
-	}
-	r.universe(rule, n, 4)
-	// the slot stored by Put carries the hash that addressed the chain and the location datalog.put returned
-	if f := p.Fn("(*pogreb.DB).Put"); r.anchor(rule, "(*pogreb.DB).Put", f != nil) {
-		checkSlotLiteral(r, p, rule, f, "(*pogreb.datalog).put")
+		}
 	}
 }
 
@@ -935,6 +1079,13 @@ func callSiteArgs(p *Program, f *ssa.Function, idx int) []ssa.Value {
 		})
 	}
 	return out
+}
+
+func topFunc(f *ssa.Function) *ssa.Function {
+	for f.Parent() != nil {
+		f = f.Parent()
+	}
+	return f
 }
 
 // staticCallersOf lists the module functions containing a static call (or defer/go) of g.
